@@ -1,6 +1,7 @@
 package sx
 
 import (
+	"go/types"
 	"strings"
 
 	"verif/engine/smt"
@@ -220,4 +221,61 @@ func HexNibble(n *smt.Term) *smt.Term {
 		t = smt.Ite(smt.Eq(n, smt.BV(uint64(v), 4)), smt.StrLit(string("0123456789abcdef"[v])), t)
 	}
 	return t
+}
+
+// Len64Term: math/bits.Len64 as a term (position of the highest set bit + 1, 0 for 0).
+func Len64Term(x *smt.Term) *smt.Term {
+	t := smt.BV(0, 64)
+	for i := 0; i < 64; i++ {
+		t = smt.Ite(smt.Eq(smt.Extract(x, i, i), smt.BV(1, 1)), smt.BV(uint64(i+1), 64), t)
+	}
+	return t
+}
+
+func init() {
+	models["math/bits.Len64"] = func(in *Interp, fn *ssa.Function, a []Value) Value {
+		x := termArg(in, a[0])
+		if x.Const {
+			n := 0
+			for v := x.U; v != 0; v >>= 1 {
+				n++
+			}
+			return smt.BV(uint64(n), 64)
+		}
+		return Len64Term(x)
+	}
+	models["math/bits.Len"] = func(in *Interp, fn *ssa.Function, a []Value) Value {
+		return models["math/bits.Len64"](in, fn, a)
+	}
+	// strconv.AppendUint(dst, v, 16): the hexadecimal digits of v without leading zeros (one digit for 0);
+	// the number of digits is decided by case split
+	models["strconv.AppendUint"] = func(in *Interp, fn *ssa.Function, a []Value) Value {
+		v, base := termArg(in, a[1]), termArg(in, a[2])
+		if !base.Const || base.U != 16 {
+			in.end("unmodelled", "strconv.AppendUint with base %s at %s", base.S, in.where())
+		}
+		d := 1
+		if v.Const {
+			for x := v.U >> 4; x != 0; x >>= 4 {
+				d++
+			}
+		} else {
+			for d = 1; d < 16; d++ {
+				if in.Branch(smt.BVUlt(v, smt.BV(uint64(1)<<(4*uint(d)), 64))) {
+					break
+				}
+			}
+		}
+		elems := make([]Value, d)
+		for k := 0; k < d; k++ {
+			sh := 4 * (d - 1 - k)
+			nib := smt.Extract(v, sh+3, sh)
+			z := smt.ZeroExt(nib, 8)
+			elems[k] = smt.Ite(smt.BVUlt(nib, smt.BV(10, 4)), smt.BVAdd(z, smt.BV('0', 8)), smt.BVAdd(z, smt.BV('a'-10, 8)))
+		}
+		bt := fn.Signature.Params().At(0).Type()
+		et := bt.Underlying().(*types.Slice).Elem()
+		one := &SliceV{Arr: in.newObject(types.NewArray(et, int64(d)), &ArrayV{E: elems}, "hexdigits"), Len: d, Cap: d}
+		return in.appendOp(a[0], one, bt)
+	}
 }
